@@ -331,7 +331,12 @@ pub fn classify_exh(exprs: &[Expr], pat: &Pat, p: &str, d: &str, property: &str)
     if crate::findings::is_open("F-EXH-OPTIONAL", property) && exprs.iter().any(has_optional_rep) {
         let raised: Vec<Expr> = exprs.iter().map(raise_optional).collect();
         if let Ok(Some((_, p2))) = build_pat(&raised) {
-            if !p2.is_match(p) {
+            // ... and that is what "as if taken at least once" predicts: the raised pattern
+            // itself reports Always (otherwise the wrong verdict has another cause)
+            // (for a combinator or a top-level alternation: one of its raised alternatives, which is what
+            // a negation partitions by)
+            let raised_always = raised.iter().flat_map(|e| crate::props::stacks::negation_alternatives(e)).any(|e| matches!(build(&render_text(&e)), Ok(Ok(g)) if guard(|| wax::Program::is_exhaustive(&g)).map_or(false, |w| w.is_always())));
+            if !p2.is_match(p) && raised_always {
                 return Some("F-EXH-OPTIONAL");
             }
         }
@@ -466,10 +471,12 @@ fn unbounded_depth(t: &Tok) -> bool {
 /// open tokens); a *nested* concatenation whose scan takes nothing (its last token bounds the
 /// text) is what wax turns into a zero term and then treats as transparent — widen it to `*`.
 pub fn widen_tail(e: &Expr) -> Expr {
-    // `nested`: the concatenation is a branch / body; `rep_body`: it is the body of a repetition
-    // `unb`: some enclosing repetition has no upper bound (only then can a zero term be
-    // multiplied into 'unbounded depth')
-    fn go(e: &Expr, nested: bool, rep_body: bool, unb: bool) -> Expr {
+    // `nested`: the concatenation is a branch / body; `rep_body`: it is the body of a repetition;
+    // `unb`: some repetition *around the branch that holds this concatenation* has no upper bound
+    // (only then can a zero term be multiplied into 'unbounded depth'; the body of an unbounded
+    // repetition is not beneath it in that sense: `**/<a:1,>` is judged like `**/<a:1,2>`);
+    // `unb_in`: what the branches inside this concatenation inherit
+    fn go(e: &Expr, nested: bool, rep_body: bool, unb: bool, unb_in: bool) -> Expr {
         let mut out = e.clone();
         let mut i = e.len();
         while i > 0 {
@@ -477,9 +484,9 @@ pub fn widen_tail(e: &Expr) -> Expr {
             match &e[i] {
                 t if t.is_branch() => {
                     out[i] = match t {
-                        Tok::Alt(bs) => Tok::Alt(bs.iter().map(|b| go(b, true, false, unb)).collect()),
+                        Tok::Alt(bs) => Tok::Alt(bs.iter().map(|b| go(b, true, false, unb_in, unb_in)).collect()),
                         Tok::Rep { body, lo, hi, spell } => {
-                            Tok::Rep { body: go(body, true, true, unb || hi.is_none()), lo: *lo, hi: *hi, spell: *spell }
+                            Tok::Rep { body: go(body, true, true, unb_in, unb_in || hi.is_none()), lo: *lo, hi: *hi, spell: *spell }
                         },
                         _ => unreachable!(),
                     };
@@ -508,7 +515,8 @@ pub fn widen_tail(e: &Expr) -> Expr {
                     if nested && unb && !e[i + 1..].iter().any(unbounded_depth) {
                         return vec![Tok::Zom { lazy: false }];
                     }
-                    if rep_body && i + 1 < e.len() {
+                    // (as above: only where the scanned tail has unbounded depth)
+                    if rep_body && i + 1 < e.len() && e[i + 1..].iter().any(unbounded_depth) {
                         let mut v = vec![Tok::Zom { lazy: false }];
                         v.extend(out[i + 1..].iter().cloned());
                         return v;
@@ -519,7 +527,7 @@ pub fn widen_tail(e: &Expr) -> Expr {
         }
         out
     }
-    go(e, false, false, false)
+    go(e, false, false, false, false)
 }
 
 /// F-EXH-MULTIPLE trigger: a repetition that may iterate more than once whose body can span two
